@@ -23,7 +23,14 @@ import (
 	"time"
 )
 
-const repo = "/repo"
+// repo is the tree the checks build from: /repo.  VERIF_REPO overrides it only for sensitivity
+// runs against a scratch worktree carrying a seeded change (tools/detect_seeds.sh).
+var repo = func() string {
+	if r := os.Getenv("VERIF_REPO"); r != "" {
+		return r
+	}
+	return "/repo"
+}()
 // verif is the framework root: the parent of the directory holding this executable (so that a
 // snapshot of /verif run elsewhere uses its own files), /verif as a fallback.
 var verif = func() string {
@@ -64,6 +71,7 @@ type batch struct {
 	WallS   int // wall budget quick
 	WallST  int
 	Note    string
+	Enum    bool // fault-point enumeration: Runs/RunsT count histories; every fault point of each is one run
 }
 
 type propDef struct {
@@ -433,6 +441,9 @@ func doTrace(b *build, id, tier string, seed, n int64) int {
 			continue
 		}
 		bt := p.Batches[0]
+		if bi := int(n / 100_000); bi < len(p.Batches) { // seeds of batch i start at i*100000
+			bt = p.Batches[bi]
+		}
 		e, _ := engineByName(bt.Engine)
 		bin, err := b.buildEngine(e)
 		if err != nil {
@@ -621,6 +632,10 @@ func doCheck(b *build, id, tier string, seed int64, workers int, scale float64) 
 		fatal(2, "no check for property %s", id)
 	}
 	evPath := filepath.Join(verif, "evidence", id+".json")
+	if d := os.Getenv("VERIF_EVIDENCE_DIR"); d != "" { // sensitivity runs on a scratch tree must not overwrite the evidence
+		_ = os.MkdirAll(d, 0o755)
+		evPath = filepath.Join(d, id+".json")
+	}
 	_ = os.Remove(evPath)
 	a := &agg{stats: map[string]int64{}, hashes: map[uint64]struct{}{}}
 	batchInfo := []map[string]any{}
@@ -659,6 +674,9 @@ func doCheck(b *build, id, tier string, seed int64, workers int, scale float64) 
 					"VERIF_WALL": strconv.Itoa(wall), "VERIF_PROPS": id, "VERIF_TIER": tier, "VERIF_VARIANT": bt.Variant,
 					"VERIF_OUT": out, "VERIF_REPLAY_DIR": filepath.Join(verif, "replays"), "VERIF_KNOWN": filepath.Join(verif, "known_findings.json"),
 					"GOMAXPROCS": "2",
+				}
+				if bt.Enum {
+					env["VERIF_ENUM"] = "1"
 				}
 				if e.Race {
 					env["VERIF_TOLERATE_EXIT"] = "1" // the testing package fails a test during which a race was reported
